@@ -65,6 +65,43 @@ func (e *Exec) intrinsic(fn *ssa.Function, name string, args []Value) (Value, bo
 		et := iv.t.Underlying().(*types.Pointer).Elem()
 		e.store(p, e.havoc(et, e.constString(args[1])))
 		return nil, true
+	case "vHavocFields":
+		// havoc every field of *p except the named ones (comma separated)
+		iv := args[0].(*IfaceV)
+		p := iv.v.(*PtrV)
+		st := iv.t.Underlying().(*types.Pointer).Elem().Underlying().(*types.Struct)
+		nm := e.constString(args[1])
+		skip := map[string]bool{}
+		for _, x := range strings.Split(e.constString(args[2]), ",") {
+			skip[x] = true
+		}
+		for i := 0; i < st.NumFields(); i++ {
+			f := st.Field(i)
+			if skip[f.Name()] {
+				continue
+			}
+			fp := &PtrV{obj: p.obj, path: extendPath(p.path, pathElem{i: i})}
+			switch u := f.Type().Underlying().(type) {
+			case *types.Basic, *types.Struct, *types.Array:
+				if b, ok := u.(*types.Basic); ok && b.Kind() == types.String {
+					continue
+				}
+				e.store(fp, e.havoc(f.Type(), nm+"."+f.Name()))
+			case *types.Map:
+				kw, _, ok := intWidth(u.Key())
+				if !ok || kw != 16 {
+					continue
+				}
+				vw := 0
+				if w, _, ok := intWidth(u.Elem()); ok && w > 0 {
+					vw = w
+				} else if est, ok := u.Elem().Underlying().(*types.Struct); !ok || est.NumFields() != 0 {
+					continue
+				}
+				e.store(fp, e.mapHavoc([]Value{&StringV{lit: nm + "." + f.Name()}, e.c64(2), e.c64(int64(vw))}))
+			}
+		}
+		return nil, true
 	case "vBytes":
 		n := e.constInt(args[1])
 		o := e.newObj(&BytesV{arr: e.st.Var(e.constString(args[0]), bytesSort), n: -1}, "vBytes")
